@@ -460,9 +460,9 @@ func (r Rule) canSplit(path string) bool {
 // splitPos returns the index where path should be split
 // based on rule.SplitPath.
 func (r Rule) splitPos(path string) int {
-	if httpserver.CaseSensitivePath {
-		return strings.Index(path, r.SplitPath)
-	}
+	// the extension test in ServeHTTP ignores letter case, so the split has
+	// to as well: otherwise a script requested as /x.PHP cannot be split,
+	// is passed to the next handler and is served as plain text
 	return strings.Index(strings.ToLower(path), strings.ToLower(r.SplitPath))
 }
 
